@@ -272,6 +272,11 @@ class Bag(Factory, Container):
             else:
                 raise JsonFormatException(json["name"], "Bag.name")
 
+            if isinstance(json["range"], basestring):
+                range = json["range"]
+            else:
+                raise JsonFormatException(json["range"], "Bag.range")
+
             if json["values"] is None:
                 values = None
 
@@ -284,15 +289,24 @@ class Bag(Factory, Container):
                         else:
                             raise JsonFormatException(nv["w"], f"Bag.values {i} n")
 
-                        if nv["v"] in ("nan", "inf", "-inf") or isinstance(nv["v"], numbers.Real):
-                            v = floatOrNan(nv["v"])
-                        elif isinstance(nv["v"], basestring):
+                        # the value must be of the kind the range declares (string, number or vector of numbers)
+                        if range == "S":
+                            if not isinstance(nv["v"], basestring):
+                                raise JsonFormatException(nv["v"], f"Bag.values {i} v")
                             v = nv["v"]
+                        elif range == "N":
+                            if isinstance(nv["v"], (list, tuple)) or not (
+                                nv["v"] in ("nan", "inf", "-inf") or isinstance(nv["v"], numbers.Real)
+                            ):
+                                raise JsonFormatException(nv["v"], f"Bag.values {i} v")
+                            v = floatOrNan(nv["v"])
                         elif isinstance(nv["v"], (list, tuple)):
                             for j, d in enumerate(nv["v"]):
                                 if d not in ("nan", "inf", "-inf") and not isinstance(d, numbers.Real):
                                     raise JsonFormatException(d, f"Bag.values {i} v {j}")
                             v = tuple(map(floatOrNan, nv["v"]))
+                            if range[1:].isdigit() and len(v) != int(range[1:]):
+                                raise JsonFormatException(nv["v"], f"Bag.values {i} v")
                         else:
                             raise JsonFormatException(nv["v"], f"Bag.values {i} v")
 
@@ -306,11 +320,6 @@ class Bag(Factory, Container):
 
             else:
                 raise JsonFormatException(json["values"], "Bag.values")
-
-            if isinstance(json["range"], basestring):
-                range = json["range"]
-            else:
-                raise JsonFormatException(json["range"], "Bag.range")
 
             out = Bag.ed(entries, values, range)
             out.quantity.name = nameFromParent if name is None else name
